@@ -37,7 +37,6 @@ pub mod machine_facts {
     pub broadcast axiom fn axiom_slice_len_fits_usize(s: &[u8])
         ensures #[trigger] s@.len() <= usize::MAX;
 }
-broadcast use machine_facts::axiom_slice_len_fits_usize;
 
 // `Range<Idx>: Clone` clones both ends (std's derived impl).
 pub assume_specification<Idx: Clone>[<Range<Idx> as Clone>::clone](r: &Range<Idx>) -> (res: Range<Idx>)
